@@ -315,6 +315,28 @@ SEEDS = [
     "<rpad>C1DHN9HK-9A25tSmwK4hU!Jji9%GKYK^syIlHJT9TnI4</rpad></envelope>",
     "<item xmlns='http://jabber.org/protocol/pubsub' id='current'><moved xmlns='urn:xmpp:moved:1'><new-jid>new@example.org</new-jid></moved></item>",
     "<html xmlns='http://jabber.org/protocol/xhtml-im'><body xmlns='http://www.w3.org/1999/xhtml'><p style='font-weight:bold'>hi <a href='http://x/?a=1&amp;b=2'>&lt;there&gt;</a></p></body></html>",
+    "<iq type='get' id='pref1'><pref xmlns='urn:xmpp:archive'/></iq>",
+    "<iq type='error' id='rpc1' from='responder@company-a.com/jrpc-server' to='requester@company-b.com/jrpc-client'><query xmlns='jabber:iq:rpc'>"
+    "<methodCall><methodName>examples.getStateName</methodName><params><param><value><i4>6</i4></value></param></params></methodCall></query>"
+    "<error code='403' type='auth'><forbidden xmlns='urn:ietf:params:xml:ns:xmpp-stanzas'/></error></iq>",
+    "<hash-used xmlns='urn:xmpp:hashes:2' algo='sha-256'/>",
+    "<hash xmlns='urn:xmpp:hashes:2' algo='sha3-256'>2XarmwTlNxDAMkvymloX3S5+VbylNrJt/l5QyPa+YoU=</hash>",
+    "<x xmlns='jabber:x:data' type='submit'><field type='hidden' var='FORM_TYPE'><value>http://jabber.org/protocol/pubsub#node_config</value></field>"
+    "<field type='list-single' var='pubsub#access_model'><value>whitelist</value></field><field type='text-single' var='pubsub#max_items'><value>max</value></field>"
+    "<field type='boolean' var='pubsub#persist_items'><value>1</value></field><field type='text-single' var='pubsub#item_expire'><value>604800</value></field>"
+    "<field type='list-single' var='pubsub#send_last_published_item'><value>never</value></field><field type='jid-multi' var='pubsub#contact'><value>a@b</value><value>c@d</value></field></x>",
+    "<x xmlns='jabber:x:data' type='result'><field type='hidden' var='FORM_TYPE'><value>http://jabber.org/protocol/pubsub#meta-data</value></field>"
+    "<field type='text-single' var='pubsub#num_subscribers'><value>1234</value></field><field type='text-single' var='pubsub#max_items'><value>max</value></field>"
+    "<field type='jid-multi' var='pubsub#owner'><value>a@b</value></field><field type='text-single' var='pubsub#title'><value>T</value></field></x>",
+    "<x xmlns='jabber:x:data' type='submit'><field type='hidden' var='FORM_TYPE'><value>http://jabber.org/protocol/pubsub#subscribe_authorization</value></field>"
+    "<field type='text-single' var='pubsub#subid'><value>123-abc</value></field><field type='text-single' var='pubsub#node'><value>princely_musings</value></field>"
+    "<field type='jid-single' var='pubsub#subscriber_jid'><value>horatio@denmark.lit</value></field><field type='boolean' var='pubsub#allow'><value>true</value></field></x>",
+    "<x xmlns='jabber:x:data' type='submit'><field type='hidden' var='FORM_TYPE'><value>http://jabber.org/protocol/pubsub#subscribe_options</value></field>"
+    "<field type='boolean' var='pubsub#deliver'><value>1</value></field><field type='boolean' var='pubsub#digest'><value>0</value></field>"
+    "<field type='text-single' var='pubsub#expire'><value>2006-02-28T23:59Z</value></field><field type='list-multi' var='pubsub#show-values'><value>chat</value><value>online</value></field>"
+    "<field type='list-single' var='pubsub#subscription_depth'><value>all</value></field></x>",
+    "<x xmlns='jabber:x:data' type='submit'><field type='hidden' var='FORM_TYPE'><value>http://jabber.org/protocol/pubsub#publish-options</value></field>"
+    "<field type='list-single' var='pubsub#access_model'><value>presence</value></field></x>",
     "<message to='foo@example.com/QXmpp' from='bar@example.com/QXmpp' type='chat'><body>hi!</body><html xmlns='http://jabber.org/protocol/xhtml-im'>"
     "<body xmlns='http://www.w3.org/1999/xhtml'><p style='font-weight:bold'>hi <a href='http://x/?a=1&amp;b=2'>&lt;there&gt;</a></p></body></html></message>",
 ]
